@@ -181,7 +181,8 @@ func (ex *Exec) step(st *State, in ssa.Instruction) {
 		ks, vs := st.u().sortOf(mt.Key()), st.u().sortOf(mt.Elem())
 		vis := st.sc.freshFun("visited", []Sort{ks}, SBool)
 		st.sc.emit("(assert (forall ((k %s)) (! (not (%s k)) :pattern ((%s k)))))", ks, vis, vis)
-		st.iters[t] = &MapIter{Map: ex.val(st, t.X), KSort: ks, VSort: vs, Visited: vis, MapType: mt}
+		d, _, _ := st.mapFams(ks, vs)
+		st.iters[t] = &MapIter{Map: ex.val(st, t.X), KSort: ks, VSort: vs, Visited: vis, MapType: mt, Count: intLit(0), StartDom: st.heap[d.Name]}
 	case *ssa.Next:
 		ex.next(st, t)
 	case *ssa.Call:
@@ -501,8 +502,22 @@ func (ex *Exec) next(st *State, t *ssa.Next) {
 	if it == nil {
 		ex.abort("next on unknown iterator")
 	}
-	d, vf, _ := st.mapFams(it.KSort, it.VSort)
+	d, vf, lf := st.mapFams(it.KSort, it.VSort)
+	if st.heap[d.Name] != it.StartDom {
+		// Go leaves the set of keys produced unspecified when the map is
+		// modified during iteration: require that it is not
+		st.sc.nfresh++
+		q := fmt.Sprintf("k!m%d", st.sc.nfresh)
+		st.check(fmt.Sprintf("safe/rangemod#%d", ex.ordinal[t]), "rangemod", T(SBool, "(forall ((%[1]s %[2]s)) (! (= (%[3]s %[5]s %[1]s) (%[4]s %[5]s %[1]s)) :pattern ((%[3]s %[5]s %[1]s))))", q, it.KSort, st.heap[d.Name], it.StartDom, it.Map.S), "the map is not modified while it is being ranged over", nil, t.Pos())
+		it.StartDom = st.heap[d.Name]
+	}
 	ok := st.sc.fresh("next_ok", SBool)
+	mlen := ite(eq(it.Map, intLit(0)), intLit(0), st.readFam(st.heap, lf, it.Map))
+	// a range over an unmodified map produces every key exactly once
+	st.sc.assert(and(le(intLit(0), it.Count), ite(ok, lt(it.Count, mlen), eq(it.Count, mlen))))
+	nc := st.sc.fresh("itercount", SInt)
+	st.sc.assert(eq(nc, ite(ok, add(it.Count, intLit(1)), it.Count)))
+	it.Count = nc
 	k := st.sc.fresh("next_k", it.KSort)
 	st.assumeWellFormed(k, it.MapType.Key())
 	inDom := and(neq(it.Map, intLit(0)), st.readFam(st.heap, d, it.Map, k))
